@@ -16,6 +16,25 @@ static ldb_t *db;
 static d_opts_t O;
 static char dbdir[1024];
 
+/* after a close: preserve the descriptor file(s) so that the projection can decode them independently */
+static int g_mserial = 0;
+static void keep_manifests(void) {
+  DIR *dd = opendir(dbdir); struct dirent *de; char src[1300], dst[1300], cur[64]; FILE *f;
+  cur[0] = 0;
+  snprintf(src, sizeof(src), "%s/CURRENT", dbdir); f = fopen(src, "r");
+  if (f) { if (fgets(cur, sizeof(cur), f)) { size_t n = strlen(cur); if (n && cur[n - 1] == '\n') cur[n - 1] = 0; } fclose(f); }
+  while (dd && (de = readdir(dd)) != NULL) if (!strncmp(de->d_name, "MANIFEST-", 9)) {
+    FILE *a, *b; char buf[65536]; size_t n;
+    snprintf(src, sizeof(src), "%s/%s", dbdir, de->d_name);
+    snprintf(dst, sizeof(dst), "%s.keep/%s.%d", dbdir, de->d_name, ++g_mserial);
+    a = fopen(src, "rb"); b = fopen(dst, "wb");
+    if (a && b) { while ((n = fread(buf, 1, sizeof(buf), a)) > 0) fwrite(buf, 1, n, b); }
+    if (a) fclose(a); if (b) fclose(b);
+    EV("ManifestKept", "\"name\":\"%s\",\"file\":\"%s.%d\",\"current\":%d", de->d_name, de->d_name, g_mserial, !strcmp(cur, de->d_name));
+  }
+  if (dd) closedir(dd);
+}
+
 static int any_iter(void) { int j; for (j = 1; j <= MAXI; j++) if (its[j]) return 1; return 0; }
 
 static int force_small = 0;
@@ -157,6 +176,7 @@ static int do_reopen(void) {
   ldb_close(db); db = NULL;
   EV("closed", "\"x\":0");
   d_ev_ls("ls_closed", dbdir);
+  keep_manifests();
   rc = ldb_open(dbdir, &O.o, &db);
   EV("reopen", "\"rc\":%d", rc);
   if (rc != 0) return rc;
@@ -334,6 +354,7 @@ int main(int argc, char **argv) {
   ldb_close(db);
   EV("closed", "\"x\":0");
   d_ev_ls("ls_closed", dbdir);
+  keep_manifests();
   lcdb_verif_close();
   d_free_opts(&O);
   if (getenv("VERIF_KEEP_DB") == NULL) { d_rmrf(dbdir); }
